@@ -346,26 +346,34 @@ func ruleContextKeys(c *chk.Ctx, d *dispatchModel) {
 	// the assigner sees the request: the assign call in check/assign takes the task's context, after the context-attach call for the same task
 	if d != nil {
 		var attach, assign ssa.CallInstruction
+		for _, g := range c.P.Ext(d.checkAssign) {
+			ir.Calls(g, func(ci ssa.CallInstruction) {
+				cc := ci.Common()
+				if ir.IsCallTo(cc, "context.WithValue") && len(cc.Args) == 3 {
+					if mi, ok := cc.Args[2].(*ssa.MakeInterface); ok {
+						if _, fv, ok := taskFieldLoad(c, mi.X); ok && fv == c.M.THreq {
+							attach = ci
+						}
+					}
+				}
+			})
+		}
 		ir.Calls(d.checkAssign, func(ci ssa.CallInstruction) {
 			g := ci.Common().StaticCallee()
-			if g == d.setContext {
-				attach = ci
-			}
-			if g != nil && g != d.setContext && ir.RecvNamed(g) == c.M.Server && g.Signature.Results().Len() == 1 && isHandlerSig(c, g.Signature.Results().At(0).Type()) {
+			if g != nil && ir.RecvNamed(g) == c.M.Server && g.Signature.Results().Len() == 1 && isHandlerSig(c, g.Signature.Results().At(0).Type()) && !c.P.InExt(d.checkAssign, g) || (g != nil && g.Signature.Results().Len() == 1 && isHandlerSig(c, g.Signature.Results().At(0).Type()) && ir.RecvNamed(g) == c.M.Server) {
 				assign = ci
 			}
 		})
-		ok := attach != nil && assign != nil && ir.InstrDominates(attach, assign)
+		ok := attach != nil && assign != nil && c.P.IDominates(attach, assign)
 		if ok {
-			t1 := ir.NormCell(attach.Common().Args[1])
-			t2, fv, isTask := taskFieldLoad(c, assign.Common().Args[1])
-			ok = isTask && fv == c.M.TCtx && t1 == t2
+			_, fv, isTask := taskFieldLoad(c, assign.Common().Args[1])
+			ok = isTask && fv == c.M.TCtx
 		}
 		pos := d.checkAssign.Pos()
 		if assign != nil {
 			pos = assign.Pos()
 		}
-		c.Check(ok, "TABLE.ctxkey", d.checkAssign, "assigner gets the request's context", pos, "the assigner is called with the same task's context, after the inbound request was attached to it", "the assigner is not given the context that carries the inbound request")
+		c.Check(ok, "TABLE.ctxkey", d.checkAssign, "assigner gets the request's context", pos, "the assigner is called with the task's context, after the inbound request was attached to it", "the assigner is not given the context that carries the inbound request")
 		// the context attached carries the request of the same task
 		okReq := false
 		ir.Instrs(d.setContext, func(ins ssa.Instruction) {
